@@ -49,6 +49,8 @@ def branch_alphabet(tier):
     out.append(A.gate("I_X", q(0)))
     out.append(A.gate("N1", q(2)))
     out.append(A.seq(A.gate("X", q(0)), A.gate("H", q(1))))
+    # a loop that is never executed still names its qubits
+    out.append(A.seq(A.loop(0, A.seq(A.gate("X", q(0))))))
     # busy gates inside a branch: they use every qubit, so any non-idle neighbour overlaps
     out.append(A.seq(A.gate("X", q(1)), A.gate("measure_all"), A.gate("prepare_all"), A.gate("X", q(1))))
     if tier != "quick":
@@ -108,6 +110,16 @@ def linear_gates(d, out):
         for _ in range(d[1]):
             linear_gates(d[2], out)
     return out
+
+
+def rename_register(p, old, new):
+    """the same program over a fundamental register of another name (state that leaks from one circuit to the
+    next through the register name shows when neighbouring cases use different names)"""
+    def ren(x):
+        if isinstance(x, tuple):
+            return tuple(ren(v) for v in x)
+        return new if x == old else x
+    return ren(p)
 
 
 def model_state(den):
@@ -210,6 +222,8 @@ class C13(ProgramCheck):
         if case[0] == "par":
             return self.run_par(case, ctx)
         _, p, nat = case
+        if (len(render.text(p)) % 2) and not any(h[1] == "qq" for h in p[1] if len(h) > 1):
+            p = rename_register(p, "q", "qq")
         text = render.text(p)
         model = Model(p, NATIVES if nat else None)
         try:
